@@ -330,7 +330,19 @@ def run(ctx):
     want_txt = ('get_updated_parsing_state_from_delta(%s, getattr(%s.parsing_state_event_handler(), '
                 'self.walker_event_name)(**self.walker_event_kwargs), %s)' % (wp_[1], wp_[2], wp_[2]))
     rcs = symex.return_cases(we)
-    got_txt = [unparse(symex.expand(c.sub, c.env, depth=6)) for c in rcs]
+    want_d = 'getattr(%s.parsing_state_event_handler(), self.walker_event_name)(**self.walker_event_kwargs)' % wp_[2]
+    got_txt = []
+    for c in rcs:
+        e_ = symex.expand(c.sub, c.env, depth=6)
+        g_ = unparse(e_)
+        if isinstance(e_, ast.Call) and call_name(e_) == 'get_updated_parsing_state' and call_recv(e_) is not None \
+                and len(e_.args) == 2 and unparse(call_recv(e_)) == want_d and unparse(e_.args[0]) == wp_[1] \
+                and unparse(e_.args[1]) == wp_[2]:
+            g_ = want_txt           # the helper written out: delta.get_updated_parsing_state(state, walker)
+        elif isinstance(e_, ast.Name) and e_.id == wp_[1] and any(
+                pol and unparse(symex.expand(t_, c.env, depth=6)) == want_d + ' is None' for t_, pol in c.conds):
+            g_ = want_txt           # no delta from the handler: the state is returned unchanged
+        got_txt.append(g_)
     ctx.decide('R10b', bool(rcs) and all(g == want_txt for g in got_txt), dm, we,
                'event resolved on the walker\'s handler and applied to the given state',
                'ParsingStateDeltaWalkerEvent does not apply the handler\'s delta to the state it is '
@@ -635,6 +647,15 @@ def run(ctx):
     ctx.rule('R10k', 'a parsing-state delta applies every component it was configured with (set_attributes together '
                      'with a context extension, ...)', 1)
     _delta_components_applied(ctx, repo)
+
+    # ---- R10l (C09 R09a), R10m (C16 R16u)
+    ctx.rule('R10l', 'parser objects (cached and shared, also re-entered for nested arguments) keep no per-parse data: the '
+                     'state a group is built from cannot be overwritten by a nested parse (C09 R09a)', 20)
+    from . import c09 as _c09, c16 as _c16
+    from .. import core as _core
+    _core.run_proxied(ctx, _c09, 'R10l', ('R09a',))
+    ctx.rule('R10m', 'legacy methods derive the states they use from the caller\'s parsing state (C16 R16u)', 5)
+    _c16.shim_state_derivation(ctx, 'R10m', repo.mod(_c16.WALKER))
 
     return 'other', (
         'Decides the places where the mode of a node is determined: the math parser\'s contents '
